@@ -94,6 +94,7 @@ type ContractSet struct {
 	Specs  map[string]*SpecFunc
 	Axioms []*Axiom
 	Ghosts map[string]*GhostVar
+	Groups map[string][]string // ghostgroup NAME = members
 	Order  []string
 }
 
@@ -184,6 +185,23 @@ func (cs *ContractSet) loadFile(path string) error {
 			}
 			cs.Axioms = append(cs.Axioms, &Axiom{Name: strings.TrimSpace(rest[:i]), Text: strings.TrimSpace(rest[i+1:]), Expr: e, Lemma: w == "lemma"})
 			cur = nil
+		case "ghostgroup":
+			// ghostgroup NAME = a, b, c   (usable in modifies clauses that follow)
+			kv := strings.SplitN(rest, "=", 2)
+			if len(kv) != 2 {
+				return fmt.Errorf("%s:%d: ghostgroup: want NAME = a, b, ...", path, l.line)
+			}
+			if cs.Groups == nil {
+				cs.Groups = map[string][]string{}
+			}
+			var ms []string
+			for _, m := range strings.Split(kv[1], ",") {
+				if m = strings.TrimSpace(m); m != "" {
+					ms = append(ms, m)
+				}
+			}
+			cs.Groups[strings.TrimSpace(kv[0])] = ms
+			cur = nil
 		case "ghost":
 			n, ty := splitWord(rest)
 			cs.Ghosts[n] = &GhostVar{n, strings.TrimSpace(ty)}
@@ -200,7 +218,7 @@ func (cs *ContractSet) loadFile(path string) error {
 	return nil
 }
 
-var keywords = map[string]bool{"callback": true, "func": true, "extern": true, "iface": true, "lemmafn": true, "spec": true, "axiom": true, "lemma": true, "ghost": true,
+var keywords = map[string]bool{"callback": true, "func": true, "extern": true, "iface": true, "lemmafn": true, "spec": true, "axiom": true, "lemma": true, "ghost": true, "ghostgroup": true,
 	"requires": true, "ensures": true, "modifies": true, "nopanic": true, "loop": true, "props": true, "results": true,
 	"params": true, "use": true, "decreases": true, "ghostparams": true, "callsite": true, "sets": true, "trusted": true, "pure": true, "inline": true, "frame": true}
 
@@ -407,7 +425,16 @@ func (cs *ContractSet) addClause(c *Contract, w, rest string, line int, file str
 	case "modifies":
 		takeMeta()
 		c.HasMod = true
+		var parts []string
 		for _, part := range splitTopLevel(rest, ',') {
+			part = strings.TrimSpace(part)
+			if g, ok := cs.Groups[part]; ok {
+				parts = append(parts, g...) // a ghost group stands for its members
+			} else {
+				parts = append(parts, part)
+			}
+		}
+		for _, part := range parts {
 			part = strings.TrimSpace(part)
 			if part == "" || part == "nothing" {
 				continue
